@@ -437,7 +437,7 @@ def proof_step(ctx, search=None):
 # K tie: harness output lines "<kernel> <input...> <output>" re-computed by the extracted model
 
 def k_tie(ctx, name, harness_cmd, model_bin, rule, exhaustive=False, key=None, timeout=1500,
-          mismatch_is_violation=True, sample_n=4):
+          mismatch_is_violation=True, sample_n=4, parallel=1):
     """Runs `harness_cmd` (shell string), stores its lines, feeds them to the model driver.
     Returns (n, bad, mismatches).  Each mismatch is a failing input of the correspondence."""
     tmpd = os.path.join(BUILD, "tmp")
@@ -448,8 +448,18 @@ def k_tie(ctx, name, harness_cmd, model_bin, rule, exhaustive=False, key=None, t
         ctx.violation((key or name) + ":harness", "harness %s failed (rc=%d): %s" % (name, rc, err[-1500:]),
                       "command: %s\nstderr:\n%s" % (harness_cmd, err[-4000:]))
         return 0, 0, []
-    rc, out, err = run("%s < %s" % (model_bin, f), timeout=timeout)
-    m = re.search(r"DONE (\d+) (\d+)", out)
+    if parallel > 1:
+        rc, out, err = run("split -n l/%d %s %s.part. && ls %s.part.* | xargs -P%d -I{} sh -c '%s < {} > {}.out' ; cat %s.part.*.out; rm -f %s.part.*"
+                           % (parallel, f, f, f, parallel, model_bin, f, f), timeout=timeout)
+        dones = re.findall(r"DONE (\d+) (\d+)", out)
+        if len(dones) == parallel:
+            out += "\nDONE %d %d\n" % (sum(int(a) for a, b in dones), sum(int(b) for a, b in dones))
+            m = list(re.finditer(r"DONE (\d+) (\d+)", out))[-1]
+        else:
+            m = None
+    else:
+        rc, out, err = run("%s < %s" % (model_bin, f), timeout=timeout)
+        m = re.search(r"DONE (\d+) (\d+)", out)
     if rc != 0 or not m:
         ctx.violation((key or name) + ":model", "model driver for %s failed: %s" % (name, (out + err)[-1500:]),
                       "command: %s < %s\n%s" % (model_bin, f, (out + err)[-4000:]), found_input=False)
